@@ -142,3 +142,15 @@ package rep
 //@ func (*context).SendMsg
 //@   ensures sel("select#1") >= 0 ==> c.backtrace == at("select#1", c.backtrace) && c.recvPipe == at("select#1", c.recvPipe)
 //@   before select#1 assert c.recvPipe == nil && len(c.backtrace) == 0
+// ---- generated default contracts (tools/gen_default_contracts.py) ----
+//@ func NewProtocol
+//@   ensures cast("*socket", result).closed == false
+//@   ensures cast("*socket", result).ttl == 8
+//@   ensures cast("*socket", result).master != nil && cast("*socket", result).master.s == cast("*socket", result)
+//@   ensures cast("*socket", result).master.closed == false
+//@   ensures cast("*socket", result).master.recvExpire == 0
+//@   ensures cast("*socket", result).master.closeQ != nil && !closed(cast("*socket", result).master.closeQ)
+//@   ensures cast("*socket", result).master.sendExpire == 0
+//@   ensures cast("*socket", result).master.bestEffort == false
+//@
+// ---- end generated default contracts ----
